@@ -10,6 +10,8 @@ type frontEnd struct {
 	name   string
 	family string
 	field  bool
+	// noWrite: the entry is only checked, never written: nothing may be observed
+	noWrite bool
 	// named: only for the seven named levels; grpc: only for the levels the adapter can produce
 	applies func(l int8) bool
 	call    func(t *rt, l zapcore.Level, msg string)
@@ -31,24 +33,28 @@ func only(ls ...int8) func(int8) bool {
 func (t *rt) fld() zap.Field { return zap.Object("f", countM{&t.entryM}) }
 
 var frontEnds = []frontEnd{
-	{"Core.Check+CheckedEntry.Write", "core", true, anyLevel, func(t *rt, l zapcore.Level, msg string) {
+	{"Core.Check+CheckedEntry.Write", "core", true, false, anyLevel, func(t *rt, l zapcore.Level, msg string) {
 		ent := zapcore.Entry{Level: l, Message: msg, Time: fixedTime}
 		if ce := t.core.Check(ent, nil); ce != nil {
 			ce.Write(t.fld())
 		}
 	}},
-	{"Logger.Log", "logger", true, anyLevel, func(t *rt, l zapcore.Level, msg string) { t.log.Log(l, msg, t.fld()) }},
-	{"Logger.Check+Write", "logger", true, anyLevel, func(t *rt, l zapcore.Level, msg string) {
+	{"Core.Check without Write", "core", false, true, anyLevel, func(t *rt, l zapcore.Level, msg string) {
+		_ = t.core.Check(zapcore.Entry{Level: l, Message: msg, Time: fixedTime}, nil)
+	}},
+	{"Logger.Check without Write", "logger", false, true, anyLevel, func(t *rt, l zapcore.Level, msg string) { _ = t.log.Check(l, msg) }},
+	{"Logger.Log", "logger", true, false, anyLevel, func(t *rt, l zapcore.Level, msg string) { t.log.Log(l, msg, t.fld()) }},
+	{"Logger.Check+Write", "logger", true, false, anyLevel, func(t *rt, l zapcore.Level, msg string) {
 		if ce := t.log.Check(l, msg); ce != nil {
 			ce.Write(t.fld())
 		}
 	}},
-	{"Sugar.Logw", "sugar", true, anyLevel, func(t *rt, l zapcore.Level, msg string) { t.sugar.Logw(l, msg, "f", countM{&t.entryM}) }},
-	{"Sugar.Log", "sugar", false, anyLevel, func(t *rt, l zapcore.Level, msg string) { t.sugar.Log(l, msg) }},
-	{"Sugar.Logf", "sugar", false, anyLevel, func(t *rt, l zapcore.Level, msg string) { t.sugar.Logf(l, "%s", msg) }},
-	{"Sugar.Logln", "sugar", false, anyLevel, func(t *rt, l zapcore.Level, msg string) { t.sugar.Logln(l, msg) }},
+	{"Sugar.Logw", "sugar", true, false, anyLevel, func(t *rt, l zapcore.Level, msg string) { t.sugar.Logw(l, msg, "f", countM{&t.entryM}) }},
+	{"Sugar.Log", "sugar", false, false, anyLevel, func(t *rt, l zapcore.Level, msg string) { t.sugar.Log(l, msg) }},
+	{"Sugar.Logf", "sugar", false, false, anyLevel, func(t *rt, l zapcore.Level, msg string) { t.sugar.Logf(l, "%s", msg) }},
+	{"Sugar.Logln", "sugar", false, false, anyLevel, func(t *rt, l zapcore.Level, msg string) { t.sugar.Logln(l, msg) }},
 
-	{"Logger.<Level>", "logger", true, named, func(t *rt, l zapcore.Level, msg string) {
+	{"Logger.<Level>", "logger", true, false, named, func(t *rt, l zapcore.Level, msg string) {
 		switch l {
 		case zapcore.DebugLevel:
 			t.log.Debug(msg, t.fld())
@@ -66,7 +72,7 @@ var frontEnds = []frontEnd{
 			t.log.Fatal(msg, t.fld())
 		}
 	}},
-	{"Sugar.<Level>", "sugar", false, named, func(t *rt, l zapcore.Level, msg string) {
+	{"Sugar.<Level>", "sugar", false, false, named, func(t *rt, l zapcore.Level, msg string) {
 		switch l {
 		case zapcore.DebugLevel:
 			t.sugar.Debug(msg)
@@ -84,7 +90,7 @@ var frontEnds = []frontEnd{
 			t.sugar.Fatal(msg)
 		}
 	}},
-	{"Sugar.<Level>f", "sugar", false, named, func(t *rt, l zapcore.Level, msg string) {
+	{"Sugar.<Level>f", "sugar", false, false, named, func(t *rt, l zapcore.Level, msg string) {
 		switch l {
 		case zapcore.DebugLevel:
 			t.sugar.Debugf("%s", msg)
@@ -102,7 +108,7 @@ var frontEnds = []frontEnd{
 			t.sugar.Fatalf("%s", msg)
 		}
 	}},
-	{"Sugar.<Level>w", "sugar", true, named, func(t *rt, l zapcore.Level, msg string) {
+	{"Sugar.<Level>w", "sugar", true, false, named, func(t *rt, l zapcore.Level, msg string) {
 		m := countM{&t.entryM}
 		switch l {
 		case zapcore.DebugLevel:
@@ -121,7 +127,7 @@ var frontEnds = []frontEnd{
 			t.sugar.Fatalw(msg, "f", m)
 		}
 	}},
-	{"Sugar.<Level>ln", "sugar", false, named, func(t *rt, l zapcore.Level, msg string) {
+	{"Sugar.<Level>ln", "sugar", false, false, named, func(t *rt, l zapcore.Level, msg string) {
 		switch l {
 		case zapcore.DebugLevel:
 			t.sugar.Debugln(msg)
@@ -141,7 +147,7 @@ var frontEnds = []frontEnd{
 	}},
 
 	// zapgrpc: Info/Warning/Error/Fatal families, Print (Info, or Debug with WithDebug)
-	{"zapgrpc.<Level>", "grpc", false, only(lInfo, lWarn, lError, lFatal), func(t *rt, l zapcore.Level, msg string) {
+	{"zapgrpc.<Level>", "grpc", false, false, only(lInfo, lWarn, lError, lFatal), func(t *rt, l zapcore.Level, msg string) {
 		switch l {
 		case zapcore.InfoLevel:
 			t.grpc.Info(msg)
@@ -153,7 +159,7 @@ var frontEnds = []frontEnd{
 			t.grpc.Fatal(msg)
 		}
 	}},
-	{"zapgrpc.<Level>ln", "grpc", false, only(lInfo, lWarn, lError, lFatal), func(t *rt, l zapcore.Level, msg string) {
+	{"zapgrpc.<Level>ln", "grpc", false, false, only(lInfo, lWarn, lError, lFatal), func(t *rt, l zapcore.Level, msg string) {
 		switch l {
 		case zapcore.InfoLevel:
 			t.grpc.Infoln(msg)
@@ -165,7 +171,7 @@ var frontEnds = []frontEnd{
 			t.grpc.Fatalln(msg)
 		}
 	}},
-	{"zapgrpc.<Level>f", "grpc", false, only(lInfo, lWarn, lError, lFatal), func(t *rt, l zapcore.Level, msg string) {
+	{"zapgrpc.<Level>f", "grpc", false, false, only(lInfo, lWarn, lError, lFatal), func(t *rt, l zapcore.Level, msg string) {
 		switch l {
 		case zapcore.InfoLevel:
 			t.grpc.Infof("%s", msg)
@@ -192,9 +198,9 @@ func init() {
 		return t.grpc
 	}
 	frontEnds = append(frontEnds,
-		frontEnd{"zapgrpc.Print", "grpc", false, only(lInfo, lDebug), func(t *rt, l zapcore.Level, msg string) { pick(t, l).Print(msg) }},
-		frontEnd{"zapgrpc.Println", "grpc", false, only(lInfo, lDebug), func(t *rt, l zapcore.Level, msg string) { pick(t, l).Println(msg) }},
-		frontEnd{"zapgrpc.Printf", "grpc", false, only(lInfo, lDebug), func(t *rt, l zapcore.Level, msg string) { pick(t, l).Printf("%s", msg) }},
+		frontEnd{"zapgrpc.Print", "grpc", false, false, only(lInfo, lDebug), func(t *rt, l zapcore.Level, msg string) { pick(t, l).Print(msg) }},
+		frontEnd{"zapgrpc.Println", "grpc", false, false, only(lInfo, lDebug), func(t *rt, l zapcore.Level, msg string) { pick(t, l).Println(msg) }},
+		frontEnd{"zapgrpc.Printf", "grpc", false, false, only(lInfo, lDebug), func(t *rt, l zapcore.Level, msg string) { pick(t, l).Printf("%s", msg) }},
 	)
 }
 
